@@ -1,7 +1,243 @@
-(* placeholder *)
-From Coq Require Import List Bool Arith.
-From MV Require Import Base.Bytes Model.FlowBackup Model.ClientPlayback.
+(* Props/C53.v -- Client replay runs queued flows sequentially and cleans up
+   (mitmproxy/addons/clientplayback.py, client_replay_concurrency = 1).
+   Statements only; each is closed by [exact] of a lemma of Proofs/ClientPlayback*.v.  They are about
+   Model/ClientPlayback.v, the model the correspondence check (Corr/C53.v) runs.  A history is any
+   list of operations Submit ids (start_replay) | Stop (stop_replay) | Loop (the event loop runs until
+   quiescent) | Net r (a network result is handed to the replay in flight, the loop not yet run) |
+   Edit i e (the user or another addon changes a flow), from any initial table of flows.  Log events:
+   LStart n i = replay() called for queue entry n (flow i), LReq = its request reaches the server,
+   LFin = replay() returned with the flow's response / error, LCrash = the except branch,
+   LStale = ghost marker (the entry is answered from a response the flow already carries).
+   Four places where the code genuinely violates the property are stated as _refuted + _partial. *)
+From Coq Require Import List Bool Arith Sorted.
+From MV Require Import Base.Bytes Model.FlowBackup Model.ClientPlayback
+  Proofs.ClientPlaybackLog Proofs.ClientPlaybackStop Proofs.ClientPlaybackSent Proofs.ClientPlaybackWitness.
 Import ListNotations.
-Theorem C53_nonvacuous : count (init []) = 0.
-Proof. reflexivity. Qed.
+Local Open Scope nat_scope.
+
+(* 1. One at a time.  In every history: when the request of entry m reaches the server (or entry m
+   finishes, or the stale marker is logged), every replay started earlier, other than m itself, has
+   finished; and a replay starts only after every earlier one has finished. *)
+Theorem C53_sequential : forall fs ops pre e post,
+  log (run (init fs) ops) = pre ++ e :: post ->
+  (forall m, needs e = Some m -> forall n i, In (LStart n i) pre -> n <> m -> finished n pre)
+  /\ (forall m j, e = LStart m j -> forall n i, In (LStart n i) pre -> finished n pre).
+Proof. exact sequential. Qed.
+Print Assumptions C53_sequential.
+
+(* 2. Queue order.  Sequence numbers are positions in the global order of acceptance (accepted =
+   concatenation of all update-hook lists of start_replay).  Entries are taken from the queue in
+   strictly increasing order, the queue itself is in that order and behind everything taken; entry
+   n is the flow accepted at position n; no accepted entry is lost: it was taken, is still queued,
+   or was removed by stop_replay. *)
+Theorem C53_queue_order : forall fs ops,
+  let s := run (init fs) ops in
+  StronglySorted lt (popped (log s) ++ map fst (queue s))
+  /\ (forall n i, In (LStart n i) (log s) \/ In (LCrash n i) (log s) \/ In (n, i) (queue s) ->
+        nth_error (accepted (log s)) n = Some i)
+  /\ (forall n, n < length (accepted (log s)) ->
+        In n (popped (log s)) \/ In n (map fst (queue s)) \/ In n (stopped (log s))).
+Proof. exact queue_order. Qed.
+Print Assumptions C53_queue_order.
+
+(* 3. Every replay that returns ends with a response or an error ... *)
+Theorem C53_finished_replay_has_outcome : forall fs ops n i r e,
+  In (LFin n i r e) (log (run (init fs) ops)) -> r <> None \/ e = true.
+Proof. exact outcome. Qed.
+Print Assumptions C53_finished_replay_has_outcome.
+
+(* ... and the flow carries exactly that outcome, with live = False, when replay() returns *)
+Theorem C53_finish_sets_flow : forall s a t f, nth_error (flows s) (a_flow a) = Some f ->
+  exists g, nth_error (flows (finish s a t)) (a_flow a) = Some g
+    /\ o_resp (fo (cf g)) = fin_resp t (fo (cf f)) /\ o_err (fo (cf g)) = fin_err t (fo (cf f))
+    /\ flive (cf g) = false
+    /\ log (finish s a t) = log s ++ [LFin (a_seq a) (a_flow a) (o_resp (fo (cf g))) (o_err (fo (cf g)))].
+Proof. exact finish_flow. Qed.
+Print Assumptions C53_finish_sets_flow.
+
+(* 3b. Every replay in flight CAN end -- false.  Refuted: a reachable state (the same flow queued
+   twice, first entry in flight with its request sent, then stop_replay) after which no history
+   whatsoever finishes the replay in flight or takes another entry from the queue.  In the code:
+   stop_replay reverts the flow in flight, Flow.set_state overwrites the live Server object of the
+   open connection, the handler loses it, done is never set (finding stop-wedges-inflight-duplicate;
+   the implementation is not compared with the model beyond that stop_replay). *)
+Theorem C53_replay_can_finish_refuted :
+  exists fs ops, let s := run (init fs) ops in
+  (exists a, act s = Some a /\ a_flow a = 0) /\
+  forall more, act (run s more) <> None /\ popped (log (run s more)) = popped (log s)
+               /\ forall n i r e, In (LFin n i r e) (log (run s more)) -> In (LFin n i r e) (log s).
+Proof. exact replay_can_finish_refuted. Qed.
+Print Assumptions C53_replay_can_finish_refuted.
+
+(* Partial, guard = not corrupted: a refused connect or a broken / closed response ends the replay
+   with an error, a connect delivers the request, a complete response ends it with that response;
+   all in the next loop run (loop_net is the part of the loop run before the next entry is taken). *)
+Theorem C53_replay_can_finish_partial : forall s a, act s = Some a -> a_pend a = None ->
+  match a_phase a with
+  | Connecting =>
+      (exists r, log (loop_net (net s NFailed)) = log s ++ [LFin (a_seq a) (a_flow a) r true]
+                 /\ act (loop_net (net s NFailed)) = None)
+      /\ loop (net s NConnected) =
+           mkSt (flows s) (queue s) (Some (mkAct (a_seq a) (a_flow a) Sent None)) (next_seq s)
+                (log s ++ [LReq (a_seq a) (a_flow a)])
+  | Sent =>
+      (forall t, exists e, log (loop_net (net s (NResponse t))) = log s ++ [LFin (a_seq a) (a_flow a) (Some t) e]
+                           /\ act (loop_net (net s (NResponse t))) = None)
+      /\ (exists r, log (loop_net (net s NBroken)) = log s ++ [LFin (a_seq a) (a_flow a) r true]
+                    /\ act (loop_net (net s NBroken)) = None)
+  | Corrupt => True
+  end.
+Proof. exact can_finish. Qed.
+Print Assumptions C53_replay_can_finish_partial.
+
+(* ... and the guard is exactly the complement of the finding: the corrupted phase is entered only
+   by stop_replay while the flow in flight, request sent, has another entry in the queue *)
+Theorem C53_corrupted_only_by_stop : forall s o, ~ corrupt s -> corrupt (step s o) ->
+  o = Stop /\ hits_connected s = true.
+Proof. exact corrupt_only_by_stop. Qed.
+Print Assumptions C53_corrupted_only_by_stop.
+
+(* 3c. Every entry taken from the queue ends with a response or an error -- false.  Refuted: the
+   request is removed (f.request = None) while the flow is queued; ReplayHandler raises, the except
+   branch logs the crash, the flow is left with neither (finding request-dropped-while-queued-crash). *)
+Theorem C53_taken_entry_has_outcome_refuted :
+  exists fs ops, let s := run (init fs) ops in
+  In (LCrash 0 0) (log s) /\ act s = None /\ queue s = []
+  /\ option_map (fun f => (o_resp (fo (cf f)), o_err (fo (cf f)))) (nth_error (flows s) 0) = Some (None, false).
+Proof. exact taken_entry_has_outcome_refuted. Qed.
+Print Assumptions C53_taken_entry_has_outcome_refuted.
+
+(* Partial: the crash branch is taken only in a loop run, for a queued entry whose flow has no
+   request at that moment (check passed earlier, so it was removed while queued). *)
+Theorem C53_crash_only_without_request_partial : forall s o n i,
+  In (LCrash n i) (log (step s o)) -> In (LCrash n i) (log s) \/
+  (o = Loop /\ In (n, i) (queue s) /\ req_at (flows s) i = false).
+Proof. exact crash_only_without_request. Qed.
+Print Assumptions C53_crash_only_without_request_partial.
+
+(* 4. Queued flows are replayed, i.e. their request is sent -- false.  Refuted: the same flow queued
+   twice; the second entry finishes with the response of the first replay and no request reaches
+   the server (finding stale-response-not-resent). *)
+Theorem C53_every_entry_sends_refuted :
+  exists fs ops, let s := run (init fs) ops in
+  In (LStale 1 0) (log s) /\ In (LFin 1 0 (Some 101) false) (log s) /\ ~ In (LReq 1 0) (log s)
+  /\ queue s = [] /\ act s = None.
+Proof. exact every_entry_sends_refuted. Qed.
+Print Assumptions C53_every_entry_sends_refuted.
+
+(* Partial, for all histories: a replay that ends without an error has a response, and its request
+   reached the server -- unless it is the stale case, which arises only for an entry taken from the
+   queue in that loop run (its flow carrying a response at that moment). *)
+Theorem C53_response_needs_request_partial : forall fs ops n i r,
+  In (LFin n i r false) (log (run (init fs) ops)) ->
+  r <> None /\ (In (LReq n i) (log (run (init fs) ops)) \/ In (LStale n i) (log (run (init fs) ops))).
+Proof. exact response_needs_request. Qed.
+Print Assumptions C53_response_needs_request_partial.
+
+Theorem C53_stale_only_from_queue : forall s o n i,
+  In (LStale n i) (log (step s o)) -> In (LStale n i) (log s) \/ (o = Loop /\ In (n, i) (queue s)).
+Proof. exact stale_only_from_queue. Qed.
+Print Assumptions C53_stale_only_from_queue.
+
+(* 5. Unreplayable flows are never queued.  The decision table of check, over all values of its
+   seven inputs: it admits a flow iff it is not live, not the flow in flight, not intercepted, an
+   HTTP flow, with a request, with content, without websocket; the reason is the first that
+   applies.  start_replay accepts exactly the replayable ones among its arguments, in argument order
+   with repetitions, appends them to the queue in that order and announces exactly them. *)
+Theorem C53_check_table : forall b f, check b f = None <-> replayable b f.
+Proof. exact check_table. Qed.
+Print Assumptions C53_check_table.
+
+Theorem C53_check_reason : forall b f,
+  check b f =
+    if flive (cf f) || b then Some RLive
+    else if o_int (fo (cf f)) then Some RIntercepted
+    else if negb (c_http f) then Some RNotHttp
+    else if negb (o_req (fo (cf f))) then Some RNoRequest
+    else match o_content (fo (cf f)) with
+         | None => Some RNoContent
+         | Some _ => if o_ws (fo (cf f)) then Some RWebsocket else None
+         end.
+Proof. exact check_reason. Qed.
+Print Assumptions C53_check_reason.
+
+Theorem C53_submit_spec : forall s ids,
+  let acc := filter (ok (inflight s) (flows s)) ids in
+  log (step s (Submit ids)) = log s ++ [LSubmit (next_seq s) acc]
+  /\ queue (step s (Submit ids)) = queue s ++ combine (seq (next_seq s) (length acc)) acc
+  /\ map snd (queue (step s (Submit ids))) = map snd (queue s) ++ acc
+  /\ act (step s (Submit ids)) = act s
+  /\ (forall i, In i acc <->
+        In i ids /\ exists f, nth_error (flows s) i = Some f /\ replayable (infl_eq (inflight s) i) f).
+Proof. exact submit_spec. Qed.
+Print Assumptions C53_submit_spec.
+
+(* 6. stop_replay.  What it does, always: the queue is emptied, exactly the queued flows are
+   reverted (C40 revert) and announced, every other flow is untouched. *)
+Theorem C53_stop_spec : forall s,
+  queue (stop_replay s) = []
+  /\ log (stop_replay s) = log s ++ [LStopped (queue s)]
+  /\ length (flows (stop_replay s)) = length (flows s)
+  /\ forall i f, nth_error (flows s) i = Some f ->
+       nth_error (flows (stop_replay s)) i =
+         Some (if in_dec Nat.eq_dec i (map snd (queue s)) then on_fl f_revert f else f).
+Proof. exact stop_spec. Qed.
+Print Assumptions C53_stop_spec.
+
+(* Stopping restores every still-queued flow to its pre-replay state -- false.  Refuted: the user
+   edits a flow (backup, new body), replays it, stops while it is queued: backup() in start_replay
+   is a no-op on a pending backup, revert() goes back to the state before the user's edit and the
+   user's undo point is gone (finding stop-reverts-to-older-backup; the same happens to a flow that
+   was replayed before, whose backup from that replay is still pending). *)
+Theorem C53_stop_restores_refuted :
+  exists fs before_ops i,
+  let before := run (init fs) before_ops in
+  let after := run before [Submit [i]; Stop] in
+  option_map (fun f => o_content (fo (cf f))) (nth_error (flows before) i) = Some (Some 7)
+  /\ option_map (fun f => o_content (fo (cf f))) (nth_error (flows after) i) = Some (Some 0)
+  /\ option_map (fun f => fbackup (cf f)) (nth_error (flows before) i) <> Some None
+  /\ option_map (fun f => fbackup (cf f)) (nth_error (flows after) i) = Some None
+  /\ queue after = [].
+Proof. exact stop_restores_refuted. Qed.
+Print Assumptions C53_stop_restores_refuted.
+
+(* Partial, guard = no backup pending when the flow is accepted (exactly the complement of the
+   finding).  Then ANY history without stop_replay and without a user revert of flow i -- more
+   submissions (of flow i too), loop runs, network results, replays of other entries and even of an
+   earlier entry for flow i, edits of any flow, flow i included -- and, flow i still being queued,
+   stop_replay: flow i has exactly the state (C40 get_state) it had before it was submitted, no
+   backup, and the queue is empty.  Uses C40 revert_restores. *)
+Theorem C53_stop_restores_partial : forall s ids upd h i f0,
+  nth_error (flows s) i = Some f0 -> fbackup (cf f0) = None ->
+  log (step s (Submit ids)) = log s ++ [LSubmit (next_seq s) upd] -> In i upd ->
+  Forall (safe i) h ->
+  let s2 := run (step s (Submit ids)) h in
+  In i (map snd (queue s2)) ->
+  exists g, nth_error (flows (step s2 Stop)) i = Some g
+    /\ f_state (cf g) = f_state (cf f0) /\ fbackup (cf g) = None /\ c_http g = c_http f0
+    /\ queue (step s2 Stop) = [].
+Proof. exact stop_restores. Qed.
+Print Assumptions C53_stop_restores_partial.
+
+(* With a backup pending, what is restored is the state saved in THAT backup. *)
+Theorem C53_stop_reverts_to_backup : forall s i f b,
+  nth_error (flows s) i = Some f -> In i (map snd (queue s)) -> fbackup (cf f) = Some b ->
+  exists g, nth_error (flows (step s Stop)) i = Some g
+    /\ f_state (cf g) = St (sid b) (sc b) None /\ fbackup (cf g) = None.
+Proof. exact stop_reverts_to_backup. Qed.
+Print Assumptions C53_stop_reverts_to_backup.
+
+(* Non-vacuity: two flows submitted, the first replayed (request sent, response 104 pending), the
+   second edited while queued; the log is what the statements talk about, the guard of
+   C53_stop_restores_partial holds, stop_replay restores the second flow, and before the stop its
+   state differed. *)
+Theorem C53_nonvacuous :
+  let s := run (init [f_resp; f_noresp]) demo_ops in
+  log s = [LSubmit 0 [0; 1]; LStart 0 0; LReq 0 0]
+  /\ log (step s Loop) = [LSubmit 0 [0; 1]; LStart 0 0; LReq 0 0; LFin 0 0 (Some 104) false; LStart 1 1]
+  /\ map snd (queue s) = [1] /\ act s = Some (mkAct 0 0 Sent (Some (NResponse 104)))
+  /\ Forall (safe 1) demo_ops
+  /\ option_map (fun f => f_state (cf f)) (nth_error (flows (step s Stop)) 1) = Some (f_state (cf f_noresp))
+  /\ option_map (fun f => f_state (cf f)) (nth_error (flows s) 1) <> Some (f_state (cf f_noresp)).
+Proof. exact demo. Qed.
 Print Assumptions C53_nonvacuous.
